@@ -75,6 +75,8 @@ def run_group_shard(params, judge_name, nontrivial_fn, sample_fn=None, force=Non
             st["stops_executed"] = sum(1 for e in H["events"] if e["op"] == "stop.call" and e.get("why") != "end")
             st["subscription_changes"] = sum(1 for e in H["events"] if e["op"] == "subscribe")
             st["coordinator_moves"] = len(H["coordinator_moves"])
+            st["long_revoke_callbacks"] = sum(1 for e in H["events"] if e["op"] == "long_revoke")
+            st["idle_periods"] = sum(1 for e in H["events"] if e["op"] == "idle.start")
             st["histories_pattern_subscription"] = 1 if any("pattern" in m for m in Pv["members"].values()) else 0
             st["histories_read_committed_with_transactions"] = 1 if Pv.get("isolation") == "read_committed" else 0
             st["histories_with_transactional_traffic"] = 1 if Pv.get("txn_traffic") else 0
